@@ -2,7 +2,9 @@ package checks
 
 import (
 	"bytes"
+	"encoding/json"
 	"fmt"
+	"path/filepath"
 	"os"
 	"os/exec"
 	"time"
@@ -63,4 +65,16 @@ func runCLI(cwd string, args ...string) cliResult {
 		cmd.Process.Kill()
 		return cliResult{Exit: -1, TimedOut: true, Stdout: so.String(), Stderr: se.String()}
 	}
+}
+
+// readReport parses coca_reporter/<name> below cwd.
+func readReport(cwd, name string, v interface{}) error {
+	b, err := os.ReadFile(filepath.Join(cwd, "coca_reporter", name))
+	if err != nil {
+		return err
+	}
+	if string(b) == "null" {
+		return nil
+	}
+	return json.Unmarshal(b, v)
 }
